@@ -152,6 +152,70 @@ def run_query(case, drv):
     return ok(nontrivial=T >= 1 and bool(case["inter"]), **tags)
 
 
+# ----------------------------------------------------------------------------- one engine, several queries
+def gen_history(rng, tier):
+    """one DBNInference object answers 2-4 queries; consecutive queries often share the query and evidence VARIABLES and differ
+    only in the observed STATES. Generated inside the regime without known findings: persistence interface, every variable in an
+    intra edge, evidence off the interface, one query variable per call."""
+    for _ in range(40):
+        tm = gen_template(rng, good=True)
+        if tm["good"] and tm["k"] >= 2:
+            break
+    else:
+        return None
+    k = tm["k"]
+    iface = {u for u, _ in tm["inter"]}
+    T = rng.randint(1, 3)
+    allnodes = [(v, t) for v in range(k) for t in range(T + 1)]
+    free = [x for x in allnodes if x[0] not in iface]
+    steps = []
+    qv, evv = None, None
+    for _ in range(rng.randint(2, 4)):
+        if qv is None or rng.random() < .35:
+            qv = rng.choice([x for x in allnodes if x[1] >= 1] or allnodes)
+            cand = [x for x in free if x != qv]
+            evv = rng.sample(cand, min(len(cand), rng.choice([1, 1, 2])))
+        steps.append({"q": [list(qv)], "ev": [[v, t, rng.randrange(tm["card"][v])] for v, t in evv],
+                      "mode": rng.choice(["query", "query", "forward"])})
+    tm["T"] = T
+    tm["steps"] = steps
+    return tm
+
+
+def run_history(case, drv):
+    from pgmpy.inference import DBNInference
+    k, T = case["k"], case["T"]
+    tags = dict(k=k, T=T, nsteps=len(case["steps"]))
+    try:
+        dbn = build_dbn(case)
+        dbn.initialize_initial_state()
+        inf = DBNInference(dbn)
+    except Exception as e:
+        return fail(f"DBNInference raised {type(e).__name__}: {e}", **tags)
+    for i, st in enumerate(case["steps"]):
+        (v, t), = st["q"]
+        variables = [(VN[v], t)]
+        evidence = {(VN[a], b): s for a, b, s in st["ev"]} or None
+        ev = [[b * k + a, s] for a, b, s in st["ev"]]
+        m = drv.call("dbn_posterior", k=k, cpd0=case["cpd0"], cpd1=case["cpd1"], cards=case["card"], T=T, q=[t * k + v],
+                     ev=ev if st["mode"] == "query" else [e for e in ev if e[0] // k <= t])
+        if Fraction(m["pe"]) == 0:
+            continue
+        try:
+            res = inf.forward_inference(variables, evidence) if st["mode"] == "forward" else inf.query(variables, evidence)
+        except Exception as e:
+            return fail(f"step {i}: DBNInference.{st['mode']} raised {type(e).__name__}: {e}", **tags)
+        key = (VN[v], t)
+        if key not in res:
+            return fail(f"step {i}: result has no entry for {key}: {list(res)}", **tags)
+        vals = [float(x) for x in res[key].values.reshape(-1)]
+        exp = [Fraction(x) for x in m["post"]["vals"]]
+        if len(vals) != len(exp) or any(not core.close(a, b, 1e-8) for a, b in zip(vals, exp)):
+            return fail(f"step {i} of {len(case['steps'])} on one engine: {st['mode']} P({key} | {evidence}) = {vals}, unrolled network gives "
+                        f"{[float(x) for x in exp]}", **tags)
+    return ok(nontrivial=len(case["steps"]) >= 2, **tags)
+
+
 # ----------------------------------------------------------------------------- constant BN / initial state
 def gen_const(rng, tier):
     tm = gen_template(rng)
@@ -210,5 +274,6 @@ def run_const(case, drv):
 
 STREAMS = [
     Stream("query", gen_query, run_query, quick=500, thorough=5000),
+    Stream("history", gen_history, run_history, quick=250, thorough=2500),
     Stream("constant_bn", gen_const, run_const, quick=300, thorough=3000),
 ]
